@@ -54,6 +54,11 @@ CHECKS.update({
          'Seeded programs of namespace commands over hostile hierarchical names are compared step by step with a model of the name set, the subscribed set and per-mailbox identity/contents; LIST/LSUB results are judged by an independent matcher ("*" any, "%" any but "/"), every listed name is decoded with the harness\'s own modified-UTF-7 decoder, and RENAME must preserve UIDs, contents, UIDVALIDITY and MAILBOXID of the mailbox and its inferiors.',
          'Trusted: the namespace model and matcher in profiles/c11.py; behaviours the statement leaves open (inferiors of INBOX, \\Noselect names, subscribed-but-missing names) are accepted either way.'),
 })
+CHECKS.update({
+ 'C13': ('exploration', '4/C13', 'seeded mailboxes and search programs; independent evaluator, SEARCH/UID SEARCH mapping through the shadow, equivalence rewrites',
+         'Seeded mailboxes of generated messages (flags, keywords, sizes, internal and sent dates in several time zones around midnight, header and body vocabulary) are searched with seeded programs to nesting depth 4 over every supported key; an evaluator written from RFC 3501 6.4.4, independent of pymap.search, gives the expected set over the session\'s view (hidden expunged messages may be in or out), UID and sequence results are mapped through the shadow, and logically equivalent rewrites must return the same set.',
+         'Trusted: the evaluator in profiles/c13.py; two readings of "disregarding time and timezone" are accepted; needles are alphanumeric so that header-value vs parsed-address matching cannot differ.'),
+})
 NOT_YET = {}
 def main():
     props = [json.loads(l) for l in open(os.path.join(ROOT, 'properties.jsonl'))]
